@@ -288,12 +288,25 @@ SEED_EXPRS = [
     "contains('abc', 'b', 'http://www.w3.org/2013/collation/UCA?lang=C;fallback=no')", "index-of(('a', 'b'), 'a', 'http://www.w3.org/2013/collation/UCA?lang=C')",
     "compare('a', 'b', 'C.utf8')", "compare('a', 'b', 'POSIX')", "compare('a', 'b', 'xx_XX.UTF-8')", "sort(('b', 'a'), 'http://www.w3.org/2013/collation/UCA?lang=de')",
     "contains-token('a b', 'a', 'x')", "default-collation() => string-length()", "collation-key('a')", "load-xquery-module('x')", "transform(map{})",
+    # nesting beyond the interpreter's recursion limit, literals beyond its integer-string limit, integers beyond the xs:double range as arguments
+    "1" + "+1" * 300, "(" * 600 + "1" + ")" * 600, "-" * 3000 + "1", "a" + "[a" * 700 + "]" * 700, "1" + ",1" * 3000, "a" + "/a" * 700, "a" + "|a" * 3000, "9" * 5000,
+    "not(" * 400 + "1" + ")" * 400, "if (1) then " * 300 + "1" + " else 2" * 300,
+    "distinct-values((1" + "0" * 400 + ", 1.5e0))", "max((1" + "0" * 400 + ", 1e0))", "min((1e0, 1" + "0" * 400 + "))", "avg((1" + "0" * 400 + ", 1e0))", "sum((1" + "0" * 400 + ", 1e0))",
+    "format-number(1" + "0" * 400 + ", '0')", "math:sqrt(1" + "0" * 400 + ")", "math:exp(1" + "0" * 400 + ")", "math:sin(1" + "0" * 400 + ")", "math:atan2(1" + "0" * 400 + ", 1)",
+    "math:pow(1" + "0" * 400 + ", 2)", "math:pow(2, 100000000)", "math:log(1" + "0" * 400 + ")", "xs:double(1" + "0" * 400 + ")", "number(1" + "0" * 400 + ")", "index-of((1e0), 1" + "0" * 400 + ")",
+    "deep-equal(1e0, 1" + "0" * 400 + ")", "round(1" + "0" * 400 + " * 1.5)", "abs(-1" + "0" * 400 + ") eq 1e0", "1" + "0" * 400 + " = 1e0", "(1" + "0" * 400 + ", 1e0) = 2e0",
+    "c/f[lang('zh')]", "//f[lang('en-US')]", "lang('zh-Hant')", "ceiling('a')", "floor(xs:duration('P1D'))", "ceiling(xs:untypedAtomic('1.5'))", "floor(true())", "round('a')", "abs('a')",
+    "function($a, b) { $a }", "function($a, 1) { $a }", "function($a, (1)) { $a }", "function($a as xs:integer, $a) { 1 }", "function(1) { 1 }",
+    "namespace-uri-for-prefix('p', /*)", "in-scope-prefixes(/*)", "outermost((1 to 10, abs#1))", "outermost((//node(), //node(), map{}))", "innermost((1 to 11, [1]))",
+    "1 => zz:f()", "'a' => xs:exp()", "1 => (", "lang('en', 1)", "xs:byte(127) + 1", "round(xs:byte(127), -1)", "-xs:byte(-128)", "abs(xs:byte(-128))", "xs:unsignedByte(255) * 2",
 ]
 
 
 def _documents():
     import xml.etree.ElementTree as ET
-    return [None, ET.XML('<a k="v"><b k="v">1</b><b>x</b><?pi p?><!--c--><c xml:lang="en"/></a>'), ET.ElementTree(ET.XML('<a><b/></a>'))]
+    import lxml.etree as LX
+    return [None, ET.XML('<a k="v"><b k="v">1</b><b>x</b><?pi p?><!--c--><c xml:lang="en"/></a>'), ET.ElementTree(ET.XML('<a><b/></a>')),
+            LX.XML('<a xmlns:p="urn:p" xml:lang="zh-Hant-TW"><!--c--><b k="v">1<?pi p?></b><c xml:lang="en"><f/></c><p:d/></a>')]
 
 
 def _mutations(rng, e, alphabet):
@@ -315,6 +328,20 @@ def _mutations(rng, e, alphabet):
 
 class _Hang(BaseException):
     pass
+
+
+def _tree(tok):
+    """token tree as text, without recursion (Token.tree recurses once per nesting level, and some valid expressions nest thousands of levels)"""
+    out, stack = [], [tok]
+    while stack:
+        t = stack.pop()
+        if isinstance(t, str):
+            out.append(t)
+            continue
+        out.append(f'({t.symbol}:{t.value!r}' if not len(t) else f'({t.symbol}')
+        stack.append(')')
+        stack.extend(reversed(list(t)))
+    return ' '.join(out)
 
 
 def _alarm(*a):
@@ -398,12 +425,12 @@ def escape_and_reuse(tier, seed):
                 fresh = P(namespaces={'x': 'urn:x', 'p': 'urn:p'})
                 a = b = None
                 try:
-                    a = fresh.parse(e).tree
+                    a = _tree(fresh.parse(e))
                 except ElementPathError as x:
                     a = ('err', x.code)
                 except BaseException as x:      # noqa
                     a = ('exc', type(x).__name__)
-                b = tok[0].tree if tok[0] is not None else None
+                b = _tree(tok[0]) if tok[0] is not None else None
                 if tok[0] is None:
                     try:
                         shared.parse(e)
